@@ -111,7 +111,7 @@ def main(tier):
              "run-id allocation, locks, event loop, scripts. Oracle: every command exits 0 with no SQLite/busy/lock message, "
              "integrity_check ok, every Files row and Deps edge each command must write is present, contents correct, run ids unique",
         assumptions=["gates are not placed inside IMMEDIATE transactions (mutually excluded by SQLite)", "<= 3 commands", "all scripts succeed"],
-        budget_s=55 if tier == "quick" else 2400)
+        budget_s=600 if tier == "quick" else 3000)
 
 
 def replay(path):
